@@ -402,7 +402,7 @@ Proof.
   revert c. induction evs as [|e evs IH]; intros c H; cbn in H; [contradiction|].
   destruct (cstep c e) as [c' out] eqn:E. destruct (crun c' evs) as [cf rest] eqn:R.
   cbn in H. specialize (IH c'). rewrite R in IH. cbn in IH.
-  destruct e as [t r|p|a ok]; cbn in E.
+  destruct e as [t r sok|p|a ok]; cbn in E.
   - inversion E; subst; auto.
   - destruct (cl_cur c); inversion E; subst; auto.
   - destruct ok; inversion E; subst; auto. destruct H as [H|H]; [now inversion H|auto].
@@ -465,20 +465,23 @@ Proof. intro H. unfold on_open. now rewrite H. Qed.
    lost in either way, reconnects to any address, failed first writes on a fresh
    connection, resources registered while connected or not) a connected client has had
    RegisterTM written successfully on its session, and every resource it holds has been
-   announced on that session *)
+   announced on that session or is pending (its own announcement failed on this session:
+   it is held all the same and the next session is told, theorem reannounce_full) *)
 Definition announced_inv (c : client) : Prop :=
   cl_connected c = true ->
-  cl_tm c = true /\ (forall x, In x (cl_resources c) -> In x (cl_rm c)).
+  cl_tm c = true /\ (forall x, In x (cl_resources c) -> In x (cl_rm c) \/ In x (cl_pending c)).
 
 Lemma cstep_announced c e : announced_inv c -> announced_inv (fst (cstep c e)).
 Proof.
-  unfold announced_inv, cl_connected. intro H.
-  destruct e as [t r|p|a ok]; cbn.
-  - unfold cl_connected. destruct (cl_cur c) eqn:E; cbn; [|discriminate].
+  unfold announced_inv. intro H.
+  destruct e as [t r sok|p|a ok]; cbn.
+  - unfold cl_connected in *. cbn. destruct (cl_cur c) eqn:E; [|discriminate].
     intros _. destruct (H eq_refl) as [H1 H2]. split; auto.
-    intros x Hx. apply in_app_or in Hx as [Hx|Hx]; apply in_or_app; auto.
-  - destruct (cl_cur c) eqn:E; cbn; [discriminate|rewrite E; exact H].
-  - destruct ok; cbn; [auto|discriminate].
+    intros x Hx. apply in_app_or in Hx as [Hx|Hx].
+    + destruct (H2 x Hx); destruct sok; cbn; [left|left|right|right]; auto; apply in_or_app; auto.
+    + destruct sok; cbn; [left|right]; apply in_or_app; auto.
+  - unfold cl_connected in *. destruct (cl_cur c) eqn:E; cbn; [discriminate|rewrite E; exact H].
+  - unfold cl_connected. destruct ok; cbn; [auto|discriminate].
 Qed.
 
 Lemma crun_announced evs : forall c, announced_inv c -> announced_inv (fst (crun c evs)).
@@ -492,7 +495,8 @@ Qed.
 Theorem registered_announced evs :
   cl_connected (fst (crun cinit evs)) = true ->
   cl_tm (fst (crun cinit evs)) = true
-  /\ forall x, In x (cl_resources (fst (crun cinit evs))) -> In x (cl_rm (fst (crun cinit evs))).
+  /\ forall x, In x (cl_resources (fst (crun cinit evs))) ->
+       In x (cl_rm (fst (crun cinit evs))) \/ In x (cl_pending (fst (crun cinit evs))).
 Proof. apply (crun_announced evs cinit). unfold announced_inv. cbn. discriminate. Qed.
 
 (* a failed announcement leaves nothing registered *)
